@@ -152,6 +152,14 @@ func AllocEnd() {
 	allocLimit = 0
 }
 
+// PoolPuts / PoolGets / LocksHeld / TrackRelease: engine-side observers of sync.Pool and
+// sync.Mutex use (gosym only; natively they return 0 / do nothing, so assertions built on them
+// are written as `!Symbolic() || ...`).
+func PoolPuts() int          { return 0 }
+func PoolGets() int          { return 0 }
+func LocksHeld() int         { return 0 }
+func TrackRelease(on bool)   {}
+
 // AtomicOps: number of sync/atomic operations executed so far (gosym only; natively 0).
 func AtomicOps() int { return 0 }
 
